@@ -310,8 +310,10 @@ def run(ctx):
         "std::sort is modelled by a stable insertion sort (libstdc++ below 17 elements); histories are compared only up to the first learnt "
         "clause longer than 17 literals",
         "the theorems hold for histories in which the model does not raise `ub` (C++ undefined behaviour / corrupted watch list); "
-        "that is PROVED for every history without simplify_db (C07_no_ub_partial); with simplify_db it needs the two-watched-literal "
-        "completeness (open) and is checked here on every generated history (model_raised_ub must be 0)",
+        "that is PROVED for every history (simplify_db included) of a network whose theories record no lemma "
+        "(C07_no_undefined_behaviour_when_theories_record_no_lemma, via the two-watched-literal invariant) and for every theory meeting the "
+        "contract on histories without simplify_db (C07_no_ub_partial); open only for simplify_db after theory lemmas; the model's flag is "
+        "also compared on every generated history (model_raised_ub must be 0)",
     ]
     ctx.assumptions += [
         "theory_contract (theory lemmas/conflicts are T-valid, range over existing variables, mention only false literals besides the "
